@@ -52,7 +52,7 @@ OBS = {}
 
 def _reset():
     OBS.clear()
-    OBS.update({"loops": [], "resolves": [], "load": None, "validation": None, "in_ok": None, "gd": None, "sp": None, "project": None, "win": None})
+    OBS.update({"loops": [], "resolves": [], "load": None, "validation": None, "in_ok": None, "gd": None, "sp": None, "project": None, "win": None, "fetch": None, "loader_ct": "unset"})
 
 
 _orig = {}
@@ -73,6 +73,21 @@ def _w_get_document(*a, **k):
     else:
         OBS["load_err"] = r
     return r
+
+
+def _w_httpx_get(*a, **k):
+    try:
+        r = _orig["httpx_get"](*a, **k)
+    except BaseException as e:  # noqa
+        OBS["fetch"] = {"ok": False, "error": type(e).__name__}
+        raise
+    OBS["fetch"] = {"ok": True, "status": r.status_code, "ctype": r.headers.get("content-type"), "has_ctype": "content-type" in r.headers, "n": len(r.content)}
+    return r
+
+
+def _w_load_yaml_or_json(data, content_type):
+    OBS["loader_ct"] = content_type
+    return _orig["load_yaml_or_json"](data, content_type)
 
 
 def _w_from_dict(data, *, config):
@@ -229,6 +244,10 @@ def _describe_resolve(body, table, r):
 
 
 def install():
+    import httpx
+    _orig.update(httpx_get=httpx.get, load_yaml_or_json=opc._load_yaml_or_json)
+    httpx.get = _w_httpx_get
+    opc._load_yaml_or_json = _w_load_yaml_or_json
     _orig.update(get_document=opc._get_document, from_dict=openapi_mod.GeneratorData.from_dict, from_data=openapi_mod.EndpointCollection.from_data,
                  build=opc.Project.build, create_schemas=props_mod._create_schemas, update_schemas=props_mod.update_schemas_with_data,
                  build_parameters=props_mod.build_parameters, update_parameters=props_mod.update_parameters_with_data,
@@ -264,8 +283,17 @@ def run_gen(case, want_obs=True):
     try:
         suffix = case.get("suffix", ".json")
         p = root / ("doc" + suffix)
-        data = bytes.fromhex(case["hex"]) if "hex" in case else case["text"].encode("utf-8", "surrogatepass")
-        p.write_bytes(data)
+        pk = case.get("path_kind")
+        if "url" in case:
+            p = case["url"]                      # a str document source: fetched with httpx.get
+        elif pk == "dir":
+            p = root / "adir"
+            p.mkdir()
+        elif pk == "missing":
+            p = root / "nope.json"
+        else:
+            data = bytes.fromhex(case["hex"]) if "hex" in case else case["text"].encode("utf-8", "surrogatepass")
+            p.write_bytes(data)
         mode = case.get("out", "fresh")
         if mode == "missing_parent":
             out = root / "nope" / "out"
@@ -309,7 +337,7 @@ def run_gen(case, want_obs=True):
         res["final"] = [[num(e), lvl(e)] for e in errors]
         res["diag"] = [[lvl(e), type(e).__name__, (e.header or "")[:80], (e.detail or "")[:160]] for e in errors[:12]]
         if want_obs:
-            o = {"load": OBS["load"], "validation": OBS["validation"], "in_ok": OBS["in_ok"], "is_dict": OBS.get("is_dict")}
+            o = {"load": OBS["load"], "validation": OBS["validation"], "in_ok": OBS["in_ok"], "is_dict": OBS.get("is_dict"), "fetch": OBS["fetch"], "loader_ct": OBS["loader_ct"]}
             if OBS.get("load_err") is not None:
                 o["load_id"] = [num(OBS["load_err"]), lvl(OBS["load_err"])]
             if OBS.get("val_err") is not None:
